@@ -1321,7 +1321,7 @@ def simplify_views(tree, ref_tree):
         r = ref.get(key)
         if r is None or not isinstance(node, FuncTypes) or ast.dump(node) == ast.dump(r):
             continue
-        did = False
+        did = _numeric_steps(node)
         for _ in range(4):
             c1 = _propagate_pure(node, only_flags=True)
             c2 = _inline_accessors(node)
@@ -1565,6 +1565,35 @@ def _tuple_assign_rewrite(st, lenient=False):
                 seq.append(ast.Assign(targets=[ast.Name(id=t_.id, ctx=ast.Store())], value=v_, lineno=st.lineno, col_offset=0))
         return seq
     return None
+
+
+def _numeric_steps(fn):
+    """``x = x + 1`` / ``x = x - 1.5`` / ``x = 1 + x`` (a plain name stepped by a numeric literal) are written
+    ``x += 1`` ...: the name holds a number on both spellings (anything else is the same TypeError), and numbers are
+    not changed in place.  Returns True when something was rewritten."""
+    changed = False
+    for node in ast.walk(fn):
+        for fld in ("body", "orelse", "finalbody"):
+            blk = getattr(node, fld, None)
+            if not (isinstance(blk, list) and blk and isinstance(blk[0], ast.stmt)):
+                continue
+            for i, st in enumerate(blk):
+                if not (isinstance(st, ast.Assign) and len(st.targets) == 1 and isinstance(st.targets[0], ast.Name)
+                        and isinstance(st.value, ast.BinOp) and isinstance(st.value.op, (ast.Add, ast.Sub))):
+                    continue
+                x, l, r = st.targets[0].id, st.value.left, st.value.right
+                lit = lambda e: isinstance(e, ast.Constant) and type(e.value) in (int, float)
+                if isinstance(l, ast.Name) and l.id == x and lit(r):
+                    step = r
+                elif isinstance(st.value.op, ast.Add) and isinstance(r, ast.Name) and r.id == x and lit(l):
+                    step = l
+                else:
+                    continue
+                blk[i] = ast.copy_location(ast.AugAssign(target=ast.Name(id=x, ctx=ast.Store()), op=st.value.op, value=step), st)
+                changed = True
+    if changed:
+        ast.fix_missing_locations(fn)
+    return changed
 
 
 def _tuple_assign_prepass(f):
@@ -3803,6 +3832,7 @@ def canonical_ast(fn, helpers, methods=None, hier=None, segment=False):
     _zero_arg_gen_defs(f)
     ast.fix_missing_locations(f)
     f.body = docstring_free(f.body)
+    _numeric_steps(f)
     _private_list_resets(f)
     _inline_super_aliases(f)
     _tuple_assign_prepass(f)
